@@ -103,3 +103,42 @@ def diff_streams(h, stream, lines, py_out, lean_out, explain=None, max_report=3)
                 h.corr_fail(stream, {"input": l, "impl": a, "model": b}, explained_by=explain(l, a, b) if explain else None)
     h.corr_ok(stream, len(lines) - bad)
     return bad
+
+
+# ---------------------------------------------------------------------- isolated real-process runs
+def _isolated_entry(q, target, args):
+    import os
+    os.setsid()          # own process group: the watchdog can kill the whole tree, daemons included
+    try:
+        q.put(("ok", target(*args)))
+    except BaseException as e:  # noqa
+        q.put(("raised", f"{type(e).__name__}: {e}"))
+
+
+def run_isolated(target, args=(), timeout=90):
+    """Run `target(*args)` in a forked child with its own process group and a watchdog.
+    Returns (status, value): status in ok | raised | hang | died."""
+    import multiprocessing as mp
+    import os
+    import signal
+    q = mp.Queue()
+    p = mp.Process(target=_isolated_entry, args=(q, target, args))
+    p.start()
+    p.join(timeout)
+    if p.is_alive():
+        try:
+            os.killpg(p.pid, signal.SIGKILL)
+        except OSError:
+            pass
+        p.join(5)
+        return "hang", f"no result within {timeout} s"
+    try:
+        st = q.get(timeout=3)
+    except Exception:
+        st = ("died", f"exit code {p.exitcode}")
+    # reap stragglers of the group (daemonic workers of a child that returned early)
+    try:
+        os.killpg(p.pid, signal.SIGKILL)
+    except OSError:
+        pass
+    return st
